@@ -935,11 +935,82 @@ func c10RefusedUnseal(t *testing.T, out *vh.Out) {
 	_ = c.Shutdown()
 }
 
+// c10NsReseal (finding F102): a separately sealed namespace that is NOT a direct child of the root namespace (p/c/, p/
+// plain); its unseal fails after its barrier was opened (an unreadable mount-table entry), so the namespace store seals
+// it again (the rollback). That must not damage anything: the core has to come up again with its (valid) shares and
+// "every entry written earlier is readable again". Op line:
+//   nsreseal => nsunseal:<failed|ok>|ns:<sealed|unsealed>|restart:<unsealed|class of the refusal>|get:<served|refused>
+func c10NsReseal(t *testing.T, out *vh.Out) {
+	p := &c10Phys{vhPhys: vhNewPhys(t), t: t}
+	c, keys, root := vhNewCore(t, p, nil, nil)
+	out.Reset()
+	ctx := vhRootCtx()
+	if cl, _ := vhReq(c, logical.UpdateOperation, "secret/canary", root, map[string]any{"v": "c10"}); cl != "ok" {
+		t.Fatalf("canary write: %s", cl)
+	}
+	pn := &namespace.Namespace{Path: "p/"}
+	TestCoreCreateNamespaces(t, c, pn)
+	child := &namespace.Namespace{Path: "p/c/"}
+	shares := TestCoreCreateUnsealedNamespaces(t, c, child)
+	pCtx := namespace.ContextWithNamespace(ctx, pn)
+	view := c.NamespaceView(child)
+	uuids, err := view.List(ctx, coreMountConfigPath+"/")
+	if err != nil {
+		t.Fatalf("mount table of p/c/: %v", err)
+	}
+	bad := coreMountConfigPath // (non-transactional storage: the mount table is ONE entry)
+	if len(uuids) > 0 {
+		bad = coreMountConfigPath + "/" + uuids[0]
+	}
+	if e, gerr := view.Get(ctx, bad); gerr != nil || e == nil {
+		t.Fatalf("mount table entry %s of p/c/: %v %v", bad, e, gerr)
+	}
+	if err := view.Put(ctx, &logical.StorageEntry{Key: bad, Value: []byte("{not valid json}")}); err != nil {
+		t.Fatal(err)
+	}
+	if err := c.namespaceStore.SealNamespace(pCtx, "c"); err != nil {
+		t.Fatalf("seal p/c/: %v", err)
+	}
+	nsun := "insufficient"
+	for _, key := range shares["p/c/"] {
+		unsealed, uerr := c.namespaceStore.UnsealNamespace(pCtx, "c", TestKeyCopy(key))
+		if uerr != nil {
+			nsun = "failed"
+			break
+		}
+		if unsealed {
+			nsun = "ok"
+			break
+		}
+	}
+	nsState := "unsealed"
+	if c.NamespaceSealed(child) {
+		nsState = "sealed"
+	}
+	if err := TestCoreSeal(c); err != nil {
+		t.Fatalf("seal: %v", err)
+	}
+	restart, detail := c10Feed(c, keys)
+	get := "refused"
+	if restart == "unsealed" {
+		if cl, resp := vhReq(c, logical.ReadOperation, "secret/canary", root, nil); cl == "ok" && resp != nil && resp.Data["v"] == "c10" {
+			get = "served"
+		}
+	}
+	line := fmt.Sprintf("nsunseal:%s|ns:%s|restart:%s|get:%s", nsun, nsState, restart, get)
+	if restart != "unsealed" || get != "served" {
+		line += "!VIOL:after the rolled-back unseal of the nested namespace p/c/ the core no longer unseals with its valid shares (" + detail + "): the data written earlier is not readable again#core-unsealable-after-namespace-reseal"
+	}
+	out.Op(line, "nsreseal")
+	_ = c.Shutdown()
+}
+
 func TestVerifC10Core(t *testing.T) {
 	out := vh.Open()
 	defer out.Close()
 	rng := vh.NewRand(vh.Seed())
 	c10RefusedUnseal(t, out)
+	c10NsReseal(t, out)
 	nCases := vh.EnvInt("VERIF_C10_CORE_CASES", 60)
 	if vh.Thorough() {
 		nCases = vh.EnvInt("VERIF_C10_CORE_CASES", 1500)
